@@ -148,8 +148,10 @@ type Node struct {
 	WWalks []WWalk            `json:"wwalks"`
 }
 
-var listKinds = []string{"deployments", "orders", "bids", "leases", "providers", "audits", "auditor", "eaccts", "epays"}
-var getKinds = []string{"deployment", "group", "order", "bid", "lease", "provider", "audit_owner", "audit_pair", "eacct", "epay"}
+var listKinds = []string{"deployments", "orders", "bids", "leases", "providers", "audits", "auditor", "eaccts", "epays",
+	"k_deployments", "k_orders", "k_bids", "k_leases", "k_providers", "k_attests"}
+var getKinds = []string{"deployment", "group", "order", "bid", "lease", "provider", "audit_owner", "audit_pair", "eacct", "epay",
+	"k_groups", "k_ordersforgroup", "k_bidsfororder", "k_bidcount", "k_leasefororder", "k_attests_owner"}
 
 // Expand turns a plan into the requests ChainQuery!Lists and ChainQuery!Walks define.
 func (p Plan) Expand() (lists []ListReq, walks []WalkReq, err error) {
